@@ -169,10 +169,97 @@ def rule_r1(facts, rep, rid="C15-R1"):
     rep.floor(rid, "random_key call sites in action providers", k, 3)
 
 
+SPLITTERS = {"split", "rsplit", "split_once", "rsplit_once", "splitn", "rsplitn", "find", "rfind", "split_terminator", "rsplit_terminator", "strip_prefix", "trim_start_matches",
+             "split_at", "char_indices", "rmatches", "matches", "match_indices", "rmatch_indices"}
+
+
+def rule_r3(facts, rep, rid="C15-R3"):
+    """Read side and write side of relative links use ONE path algebra (the relative_path crate), and the reader normalises what the writer can emit."""
+    KEY = "liwe::model::Key"
+    want = {
+        "Key::parent": ("relative_path::RelativePath::parent", "the directory of a key"),
+        "Key::to_rel_link_url": ("relative_path::RelativePath::relative", "the url written for a key as seen from a directory (may start with ../)"),
+        "Key::from_rel_link_url": ("relative_path::RelativePath::join_normalized", "the key a written url resolves to from a directory (must collapse the ../ the writer emits)"),
+    }
+    for nm, (callee, what) in sorted(want.items()):
+        f = facts.fn(nm)
+        rep.saw_fn(f)
+        c = ctx(f)
+        key = f.def_ + "|uses:" + fb.last_seg(callee)
+        calls = [x for x in fb.walk(f.body) if x.get("k") in ("mcall", "call") and (fb.callee(x) or "").endswith(callee.split("::", 1)[1])]
+        # the value returned must be derived from that call
+        ret_atoms = c.mentions(f.body)
+        if calls and q.has_call(ret_atoms, fb.last2(callee)):
+            rep.ok(rid, key, "%s is computed with %s" % (what, fb.last2(callee)), loc(f, calls[0]))
+        else:
+            plain_join = [x for x in fb.walk(f.body) if x.get("k") == "mcall" and (fb.callee(x) or "").endswith("RelativePath::join")]
+            extra = " (it uses the non-normalising RelativePath::join: `../x` from `dir` becomes the key `dir/../x`, which names no note)" if plain_join and nm.endswith("from_rel_link_url") else ""
+            rep.violation(rid, key, "%s is no longer computed with %s%s: reader and writer of relative links use different path algebras, so a written link need not resolve back" % (what, callee, extra), f.loc)
+        # no ad-hoc separator arithmetic in these three fns
+        adhoc = []
+        for x in fb.walk(f.body):
+            if x.get("k") == "mcall" and x["name"] in SPLITTERS and (fb.callee(x) or "").startswith(("core::str::", "std::str::", "alloc::str::", "alloc::string::", "std::string::")):
+                lit = [a for a in x["args"] if a.get("k") == "lit" and "/" in str(a.get("v", ""))]
+                if lit:
+                    adhoc.append(x)
+        key = f.def_ + "|no-ad-hoc-separator-arithmetic"
+        if adhoc:
+            rep.violation(rid, key, "`%s` handles the `/` separator by hand in %s: component boundaries (a/b vs a/bc, nested directories) are not respected the way the other two "
+                          "key/url conversions respect them" % (fb.show(adhoc[0])[:70], nm), loc(f, adhoc[0]))
+        else:
+            rep.ok(rid, key, "no string splitting on '/'", f.loc)
+    # who else does directory arithmetic on keys by hand?  (crate-wide inventory, expected empty)
+    n = 0
+    for f in facts.body_fns():
+        if f.crate not in ("liwe", "iwes") or "::tests::" in f.def_ or "::test::" in f.def_ or f.kind == "closure":
+            continue
+        if not ("model" in (f.file or "") or "projector" in (f.file or "")):
+            continue
+        for x in fb.walk(f.body):
+            if x.get("k") == "mcall" and x["name"] in SPLITTERS and (fb.callee(x) or "").startswith(("core::str::", "std::str::", "alloc::str::")):
+                lit = [a for a in x["args"] if a.get("k") == "lit" and "/" in str(a.get("v", ""))]
+                if lit and not f.def_.endswith(tuple(want.keys())):
+                    n += 1
+                    rep.violation(rid, "%s|ad-hoc-separator|%s" % (f.def_, x["name"]), "hand-written `/` handling `%s` in the key/link model" % fb.show(x)[:70], loc(f, x))
+    rep.ok(rid, "model|ad-hoc-separator-inventory", "%d hand-written separator operations in the key/link model" % n, None, nontrivial=False)
+    # the projector threads the note's directory into every nested projection (quotes, list items)
+    pj = facts.fn("Projector::with")
+    st = [x for x in fb.walk(pj.body) if x.get("k") == "struct" and fb.norm(x.get("def", "")).endswith("Projector")]
+    key = pj.def_ + "|keeps-parent"
+    okp = any(fl["name"] == "parent" and "self.parent" in fb.show(fl["e"]).replace(" ", "") for s in st for fl in s["fields"])
+    if okp:
+        rep.ok(rid, key, "with(level) copies self.parent", pj.loc)
+    else:
+        rep.violation(rid, key, "Projector::with does not carry the note's directory into nested projections", pj.loc)
+    n_ctor = 0
+    for f in facts.body_fns():
+        if f.crate != "liwe" or "::tests::" in f.def_:
+            continue
+        for x in fb.walk(f.body):
+            made = None
+            if x.get("k") == "struct" and fb.norm(x.get("def", "")).endswith("projector::Projector"):
+                made = "literal"
+            if x.get("k") in ("call", "mcall") and (fb.callee(x) or "").endswith(("Default>::default", "Default::default")) and "Projector" in (x.get("ty") or ""):
+                made = "Default::default()"
+            if made:
+                owner = f.parent if f.kind == "closure" and f.parent else f.def_
+                n_ctor += 1
+                key = "%s|constructs-projector|%s" % (owner, made)
+                if owner.endswith(("Projector::project", "Projector::with")) and made == "literal":
+                    rep.ok(rid, key, "audited constructor site", loc(f, x), nontrivial=False)
+                else:
+                    rep.violation(rid, key, "a Projector is built by %s in %s: nested blocks would be rendered without the note's directory (block references inside quotes / list items "
+                                  "come out relative to the library root)" % (made, owner), loc(f, x))
+    rep.floor(rid, "Projector construction sites", n_ctor, 2)
+
+
 def run(facts, rep, tier):
     rep.rule("C15-R1", "Every rendered text is relativised against the directory of the note it will be stored under: for each Change::Update{key: K, markdown: M}, "
              "M comes from to_markdown(&K.parent(), ..) or Graph::to_markdown(&K) (never to_default_markdown / another key's parent); Graph::to_markdown "
              "renders collect(key) with key.parent(); completion links and new keys are relative to the current/source note's directory.")
     rep.rule("C15-R2", "= C05-R2 (read side): every from_rel_link_url(url, D) has D derived from the containing note's parent(); link urls never go through from_file_name.")
+    rep.rule("C15-R3", "One path algebra: Key::parent / to_rel_link_url / from_rel_link_url are computed with relative_path's parent / relative / join_normalized (the reader collapses "
+             "the ../ the writer emits), none of them handles '/' by hand, and the projector carries the note's directory into every nested projection (only project() and with() build one).")
     rule_r1(facts, rep)
     c05.rule_r2(facts, rep, "C15-R2")
+    rule_r3(facts, rep)
